@@ -111,6 +111,7 @@ type exec struct {
 	results  []*Cell // named result cells
 	lets     map[string]Value
 	ghostEnv map[types.Object]Value
+	frame    *frameInfo
 }
 
 type retRec struct {
@@ -129,6 +130,7 @@ type loopInfo struct {
 	variant []*Term // decreases value at head
 	snap    *State
 	pos     token.Pos
+	frameKeys []string
 }
 
 func (e *Engine) newCell(name string, t types.Type) *Cell {
